@@ -29,6 +29,8 @@ type Rules struct {
 	SkipDirs []string `json:"skip_dirs"`
 	// NoSelect: files whose selects are left alone
 	NoSelect []string `json:"no_select"`
+	// PinSelect: files whose selects are always polled in source order (never permuted by the salt)
+	PinSelect []string `json:"pin_select"`
 }
 
 type Stats struct {
@@ -71,6 +73,9 @@ func main() {
 		}
 	}
 
+	for _, f := range rules.PinSelect {
+		pinSelect[f] = true
+	}
 	cfg := &packages.Config{
 		Mode: packages.NeedName | packages.NeedFiles | packages.NeedCompiledGoFiles | packages.NeedSyntax |
 			packages.NeedTypes | packages.NeedTypesInfo | packages.NeedImports | packages.NeedDeps,
@@ -434,6 +439,8 @@ func findCandidate(f *ast.File, b []byte, fset *token.FileSet) (sel *ast.SelectS
 	return
 }
 
+var pinSelect = map[string]bool{}
+
 func rewriteSelectOnce(rel string, b []byte, counter *int) ([]byte, bool) {
 	fset := token.NewFileSet()
 	f, err := parser.ParseFile(fset, rel, b, parser.ParseComments)
@@ -539,7 +546,11 @@ func rewriteSelectOnce(rel string, b []byte, counter *int) ([]byte, bool) {
 	out.WriteString("{\n")
 	out.WriteString(pre.String())
 	fmt.Fprintf(&out, "%s := -1\n", idx)
-	fmt.Fprintf(&out, "for _, __i := range simrt__.SelectOrder(%q, %d) {\nswitch __i {\n%s}\nif %s >= 0 {\nbreak\n}\n}\n", site, n, polls.String(), idx)
+	orderFn := "SelectOrder"
+	if pinSelect[rel] {
+		orderFn = "SelectOrderPinned"
+	}
+	fmt.Fprintf(&out, "for _, __i := range simrt__."+orderFn+"(%q, %d) {\nswitch __i {\n%s}\nif %s >= 0 {\nbreak\n}\n}\n", site, n, polls.String(), idx)
 	fmt.Fprintf(&out, "if %s < 0 {\nselect {\n%s}\n}\n", idx, blocking.String())
 	lab := ""
 	if label != nil {
